@@ -19,6 +19,9 @@ from .index import FuncInfo, dotted, norm
 from .report import AnalysisError
 
 
+# `config.hbar` of the repository: a positive real symbol
+HBAR = sp.Symbol("hbar", positive=True)
+
 class Untranslatable(AnalysisError):
     pass
 
@@ -141,6 +144,8 @@ class SymEval:
                 return ("<npfunc>", e.attr)
             if e.attr in ("complex_dtype", "dtype"):
                 return "<dtype>"
+            if e.attr == "hbar" and isinstance(e.value, ast.Name) and e.value.id in ("config", "_config"):
+                return HBAR
             if e.attr == "T":
                 return to_matrix(self.ev(e.value)).T
             if e.attr in ("params", "_params") and isinstance(e.value, ast.Name) and e.value.id == "self":
